@@ -296,6 +296,16 @@ KERNELS = [
     dict(name="jDE_greedy_replacement", file="optimizers/_jde.py", cls="jDE", func="_get_new_population", params=[], ret="Mat",
          start_at="mask = ", inputs={"mutant_cr_b_g": "Arr", "mutant_cr_ph": "Arr", "mutant_cr_fit": "Arr", "mutate_F": "Arr", "mutate_CR": "Arr"},
          self_arrays=["_population_g_i", "_population_ph_i", "_fitness_i", "_F", "_CR"]),
+    # ---- SHADE's bookkeeping after the trials are evaluated (suffix translation): successes, archive, greedy replacement, improvements,
+    #      and the success-history ring (which cell is read, which is written, how the index advances); the three helper methods are
+    #      function parameters of their actual arguments
+    dict(name="SHADE_bookkeeping", file="optimizers/_shade.py", cls="SHADE", func="_get_new_population", params=[], ret="Mat",
+         start_at="mask = ", inputs={"mutant_cr_b_g": "Arr", "mutant_cr_ph": "Arr", "mutant_cr_fit": "Arr"},
+         self_arrays=["_population_g_i", "_population_ph_i", "_fitness_i", "_F", "_CR", "_population_g_archive_i", "_H_F", "_H_CR"], self_ints=["_k"],
+         self_attrs={"_H_size": ("H_size", "Int")},
+         ext_fn={"self._append_archive": ("appendFn", ["archive", "worse_g"], ["Arr", "Arr"]),
+                 "self._update_u_F": ("updateFFn", ["u_F", "S_F"], ["Int", "Arr"], "Int"),
+                 "self._update_u_CR": ("updateCRFn", ["u_CR", "S_CR", "df"], ["Int", "Arr", "Arr"], "Int")}),
     dict(name="tournament_selection", file="utils/selections.py", func="tournament_selection",
          params=[("fitness", "Arr"), ("rank", "Arr"), ("tour_size", "Int"), ("quantity", "Int")], ret="Arr",
          ext_fn={"random_sample": ("sampler", ["range_size", "quantity", "replace"])}),
@@ -374,6 +384,7 @@ class Tr:
         self.self_items = cfg.get("self_items", {})
         self.self_append = cfg.get("self_append", [])
         self.self_arrays = cfg.get("self_arrays", [])
+        self.self_ints = cfg.get("self_ints", [])
         self.actions = cfg.get("actions", {})
         self.bool_stream = cfg.get("bool_stream", {})
         self.not_none = cfg.get("not_none", {})
@@ -386,6 +397,7 @@ class Tr:
         self.ntmp = 0
         self.tmps: dict[str, str] = {"app" + a_: "Arr" for a_ in self.self_append}
         self.tmps.update({"arr" + a_: "Arr" for a_ in cfg.get("self_arrays", [])})
+        self.tmps.update({"int" + a_: "Int" for a_ in cfg.get("self_ints", [])})
         self.keyconsts: dict[str, float] = {}
         self.used_streams: set = set()
         self.collect(fn.body)
@@ -419,6 +431,8 @@ class Tr:
             return "Arr"
         if isinstance(e, ast.Attribute) and self.self_path(e) in getattr(self, "self_arrays", []):
             return "Arr"
+        if isinstance(e, ast.Attribute) and self.self_path(e) in getattr(self, "self_ints", []):
+            return "Int"
         if isinstance(e, (ast.Compare, ast.BoolOp)) or (isinstance(e, ast.UnaryOp) and isinstance(e.op, ast.Not)):
             return "Bool"
         if isinstance(e, ast.List):
@@ -437,7 +451,7 @@ class Tr:
         if isinstance(e, ast.Subscript):
             if self.is_sample1(e) or self.is_uniform1(e):
                 return "Int"
-            if isinstance(e.slice, ast.Slice) or is_np(e.value, "r_") or self.is_mask_index(e):
+            if isinstance(e.slice, ast.Slice) or is_np(e.value, "r_") or self.is_mask_index(e) or self.is_mask_get(e):
                 return "Arr"
             if self._safe_ty(e.slice) == "Arr" and self._safe_ty(e.value) in ("Mat", "Arr"):
                 return self.ty(e.value)
@@ -461,6 +475,8 @@ class Tr:
                 return KERNEL_BY_NAME[self.tree_methods[f.attr]]["ret"]
             if is_np(f, "split") and len(e.args) == 2:
                 return "Mat"
+            if is_np(f, "abs") and len(e.args) == 1 and self._safe_ty(e.args[0]) == "Arr":
+                return "Arr"
             if is_np(f, "empty", "arange", "zeros", "empty_like", "array", "cumsum"):
                 return "Arr"
             if nm in ("sorted", "range"):
@@ -507,7 +523,7 @@ class Tr:
             if isinstance(st, ast.Assign):
                 for t in st.targets:
                     if isinstance(t, ast.Name):
-                        if self.is_mask_expr(st.value):
+                        if self.is_mask_expr(st.value) or self.is_mask_ge(st.value):
                             self.masks.add(t.id)
                         self.setlocal(t.id, self.ty(st.value))
                     elif isinstance(t, ast.Tuple) and self.is_tree_call(st.value, "get_common_region"):
@@ -799,8 +815,13 @@ class Tr:
 
     def is_mask_ge(self, e):
         """<array> >= <array> : the elementwise mask"""
-        return (isinstance(e, ast.Compare) and len(e.ops) == 1 and isinstance(e.ops[0], ast.GtE)
+        return (isinstance(e, ast.Compare) and len(e.ops) == 1 and isinstance(e.ops[0], (ast.GtE, ast.Gt))
                 and self._safe_ty(e.left) == "Arr" and self._safe_ty(e.comparators[0]) == "Arr")
+
+    def is_mask_get(self, e):
+        """<array>[<mask>] : the entries at which a 0/1 mask (a local assigned from an array comparison) is set"""
+        return (isinstance(e, ast.Subscript) and isinstance(e.slice, ast.Name) and e.slice.id in self.masks
+                and not (isinstance(e.value, ast.Call) and is_np(e.value.func, "arange")) and self._safe_ty(e.value) == "Arr")
 
     def static_true(self, test):
         """`len(P) == 1` for a parameter P declared as a one-element list of trees"""
@@ -989,6 +1010,8 @@ class Tr:
                 return f"s.self{dotted}"
             if dotted is not None and dotted in self.self_arrays:
                 return f"s.arr{dotted}"
+            if dotted is not None and dotted in self.self_ints:
+                return f"s.int{dotted}"
             if e.attr == "size" and self.ty(e.value) == "Arr":
                 return f"(Imp.leni {self.E(e.value, env)})"
             if e.attr in self.node_attrs and self._safe_ty(e.value) == "Int" and not isinstance(e.value, ast.Name):
@@ -1026,7 +1049,7 @@ class Tr:
             v = self.not_none[e.left.id if isinstance(e.left, ast.Name) else self.self_path(e.left)]
             return v if isinstance(e.ops[0], ast.IsNot) else f"(! {v})"
         if self.is_mask_ge(e):
-            return f"(Imp.maskGE {self.E(e.left, env)} {self.E(e.comparators[0], env)})"
+            return f"(Imp.{'maskGE' if isinstance(e.ops[0], ast.GtE) else 'maskGT'} {self.E(e.left, env)} {self.E(e.comparators[0], env)})"
         if self.is_mask_expr(e):
             return f"(({self.E(e.left, env)}).map fun v => if v > {self.E(e.comparators[0], env)} then (1 : Int) else 0)"
         if isinstance(e, ast.Compare):
@@ -1046,6 +1069,8 @@ class Tr:
         if self.self_item(e) is not None:
             return self.self_item(e)
         if isinstance(e, ast.Subscript):
+            if self.is_mask_get(e):
+                return f"(Imp.maskGet {self.E(e.value, env)} {self.E(e.slice, env)})"
             if self.is_mask_index(e):
                 return f"(Imp.whereNZ {self.E(e.slice, env)})"
             if is_np(e.value, "r_"):
@@ -1106,6 +1131,8 @@ class Tr:
                 return self.E(args[0], env)
             if is_np(f, "array") and len(args) == 1:
                 return self.E(args[0], env)
+            if is_np(f, "abs") and len(args) == 1 and self.ty(args[0]) == "Arr":
+                return f"(({self.E(args[0], env)}).map fun v => if v < 0 then -v else v)"
             if is_np(f, "split") and len(args) == 2 and self.ty(args[0]) == "Arr" and self.ty(args[1]) == "Arr":
                 return f"(Imp.npSplit {self.E(args[0], env)} {self.E(args[1], env)})"
             if is_np(f, "argmax") and len(args) == 1 and self.ty(args[0]) == "Arr" and not isinstance(args[0], ast.Subscript):
@@ -1159,6 +1186,8 @@ class Tr:
         if isinstance(e, ast.Subscript) and is_np(e.value, "r_"):
             parts = e.slice.elts if isinstance(e.slice, ast.Tuple) else [e.slice]
             return bor(*[self.oob(x, env) for x in parts])
+        if self.is_mask_get(e):
+            return bor(self.oob(e.value, env), f"decide (Imp.leni {self.E(e.value, env)} ≠ Imp.leni {self.E(e.slice, env)})")
         if self.is_mask_index(e):
             return f"decide (({self.E(e.value.args[0], env)}) ≠ Imp.leni {self.E(e.slice, env)})"
         if self.is_mask_ge(e):
@@ -1367,6 +1396,20 @@ class Tr:
                 m, y = self.E(t.slice, {}), self.E(st.value.value, {})
                 L.append(f"{{ s with err := s.err || decide (Imp.leni s.{fld} ≠ Imp.leni {m}) || decide (Imp.leni {y} ≠ Imp.leni {m}), {fld} := Imp.maskSet s.{fld} {m} {y} }}")
                 return L
+            if isinstance(t, ast.Attribute) and self.self_path(t) in self.self_arrays:
+                env = self.pre([st.value], L)
+                L.append(f"{{ s with arr{self.self_path(t)} := {self.E(st.value, env)} }}")
+                return L
+            if isinstance(t, ast.Attribute) and self.self_path(t) in self.self_ints:
+                env = self.pre([st.value], L)
+                L.append(f"{{ s with int{self.self_path(t)} := {self.E(st.value, env)} }}")
+                return L
+            if isinstance(t, ast.Subscript) and self.self_path(t.value) in self.self_arrays and not isinstance(t.slice, ast.Slice) and self._safe_ty(t.slice) == "Int":
+                fld = "arr" + self.self_path(t.value)
+                env = self.pre([st.value, t.slice], L)
+                i = self.E(t.slice, env)
+                L.append(f"{{ s with err := s.err || (! Imp.inb s.{fld} {i}), {fld} := Imp.seti s.{fld} {i} {self.E(st.value, env)} }}")
+                return L
             if isinstance(t, ast.Attribute) and self.self_path(t) in self.self_state:
                 env = self.pre([st.value], L)
                 L.append(f"{{ s with self{self.self_path(t)} := {self.Ex(st.value, env)} }}")
@@ -1409,6 +1452,14 @@ class Tr:
             env = self.pre([st.value, st.target.slice], L)
             i = self.E(st.target.slice, env)
             L.append(f"{{ s with err := s.err || (! Imp.inb s.{a} {i}), {a} := Imp.seti s.{a} {i} ((Imp.geti s.{a} {i}) {op} {self.E(st.value, env)}) }}")
+            return L
+        if isinstance(st, ast.AugAssign) and isinstance(st.target, ast.Attribute) and self.self_path(st.target) in self.self_ints:
+            op = {ast.Add: "+", ast.Sub: "-", ast.Mult: "*"}.get(type(st.op))
+            if op is None:
+                raise NotRecognised("augmented operator")
+            n = "int" + self.self_path(st.target)
+            env = self.pre([st.value], L)
+            L.append(f"{{ s with {n} := s.{n} {op} {self.E(st.value, env)} }}")
             return L
         if isinstance(st, ast.AugAssign) and (isinstance(st.target, ast.Name) or (isinstance(st.target, ast.Attribute) and self.self_path(st.target) in self.self_state)):
             op = {ast.Add: "+", ast.Sub: "-", ast.Mult: "*"}.get(type(st.op))
@@ -1619,6 +1670,7 @@ class Tr:
         extra = " ".join(f"({v} : {LTY[t]})" for v, t in list(self.self_attrs.values()) + list(self.ext.values()))
         extra += "".join(f" ({self.id(n)} : {LTY[t]})" for n, t in cfg.get("inputs", {}).items())
         extra += "".join(f" ({a_[1:]} : List Int)" for a_ in self.self_arrays)
+        extra += "".join(f" ({a_[1:]}_0 : Int)" for a_ in self.self_ints)
         extra += "".join(f" ({n} : Int)" for n in sorted(self.keyconsts))
         if self.streams:
             if "us" in self.used_streams:
@@ -1649,10 +1701,10 @@ class Tr:
                 f"structure {name}.S where\n{fields}  brk : Bool := false\n  cnt : Bool := false\n  err : Bool := false\n  dry : Bool := false\n"
                 f"  ku : Nat := 0\n  kn : Nat := 0\n  kr : Nat := 0\n" + ("  kx : Nat := 0\n" if (self.ext_stream or self.ext_fn or self.opaque_fn) else "") + ("  kb : Nat := 0\n  log : List Int := []\n" if (self.bool_stream or self.actions) else "") + "\n"
                 f"def {name} {params} {extra} : Option ({LTY[cfg['ret']]}) :=\n"
-                f"  let s : {name}.S := {{" + ", ".join([f"self{a} := Imp.geti self ({k} : Int)" for k, a in enumerate(self.self_state)] + [f"arr{a_} := {a_[1:]}" for a_ in self.self_arrays]) + f"}}\n{fuel}{body}\n\nend TFV.Generated.Src\n")
+                f"  let s : {name}.S := {{" + ", ".join([f"self{a} := Imp.geti self ({k} : Int)" for k, a in enumerate(self.self_state)] + [f"arr{a_} := {a_[1:]}" for a_ in self.self_arrays] + [f"int{a_} := {a_[1:]}_0" for a_ in self.self_ints]) + f"}}\n{fuel}{body}\n\nend TFV.Generated.Src\n")
 
 
-NP_FUNCS = ("split", "float64", "int64", "floor", "array", "empty", "zeros", "empty_like", "arange", "cumsum", "argmax")
+NP_FUNCS = ("abs", "split", "float64", "int64", "floor", "array", "empty", "zeros", "empty_like", "arange", "cumsum", "argmax")
 KERNEL_BY_NAME = {k["name"]: k for k in KERNELS}
 KERNEL_PARAM_TY = {k["name"]: dict(k["params"]) for k in KERNELS}
 
@@ -1683,7 +1735,9 @@ def translate(repo: Path, cfg: dict) -> str:
         cut = next((k for k, st in enumerate(fn.body) if ast.unparse(st).startswith(cfg["start_at"])), None)
         if cut is None:
             raise NotRecognised(f"statement '{cfg['start_at']}' not found")
-        ret = ast.Return(value=ast.List(elts=[ast.Attribute(value=ast.Name(id="self", ctx=ast.Load()), attr=a_, ctx=ast.Load()) for a_ in cfg["self_arrays"]], ctx=ast.Load()))
+        mk = lambda a_: ast.Attribute(value=ast.Name(id="self", ctx=ast.Load()), attr=a_, ctx=ast.Load())   # noqa: E731
+        rows = [mk(a_) for a_ in cfg["self_arrays"]] + ([ast.List(elts=[mk(a_) for a_ in cfg["self_ints"]], ctx=ast.Load())] if cfg.get("self_ints") else [])
+        ret = ast.Return(value=ast.List(elts=rows, ctx=ast.Load()))
         fn = ast.FunctionDef(name=fn.name, args=fn.args, body=fn.body[cut:] + [ret], decorator_list=[], returns=None, type_comment=None)
         ast.fix_missing_locations(fn)
     if cfg.get("return_call_kwargs"):
